@@ -799,3 +799,134 @@ Proof.
   unfold cb_read, read_full. destruct (Nat.ltb_spec (length s) n) as [Hlt|Hge]; [discriminate|].
   intro H; inversion H; subst. rewrite skipn_length. lia.
 Qed.
+
+(* ------------------------------------------------------------------ decisions are stable *)
+(* once the gate has decided (No, or a complete record), further bytes do not change the answer *)
+Lemma tlsh_gate_stable p s :
+  tls_gate p <> TGMore -> tls_gate (p ++ s) = tls_gate p.
+Proof.
+  unfold tls_gate. destruct (read_full 5 p) as [[hdr r]|] eqn:E; [|congruence].
+  rewrite (read_full_app _ _ s _ _ E).
+  destruct hdr as [|t [|a [|b [|l1 [|l2 hdr]]]]]; try reflexivity.
+  destruct (negb (Byte.eqb t tlsh_record_type_handshake)); [reflexivity|].
+  destruct (read_full (N.to_nat (be_N [l1; l2])) r) as [[raw r']|] eqn:E2; [|congruence].
+  rewrite (read_full_app _ _ s _ _ E2). reflexivity.
+Qed.
+
+Lemma tlsh_match_stable subs p s :
+  r_verdict (tls_match subs p) <> More -> tls_match subs (p ++ s) = tls_match subs p.
+Proof.
+  unfold tls_match. intro H. rewrite tlsh_gate_stable; [reflexivity|].
+  intro E. rewrite E in H. apply H. reflexivity.
+Qed.
+
+(* ------------------------------------------------------------------ fuel is never exhausted *)
+(* every loop of the parser is given fuel = number of bytes it iterates over and every iteration
+   consumes at least one byte; hence the result does not depend on the fuel (the out-of-fuel
+   branches of the model are unreachable for every input, not just encoded ones) *)
+Definition tlsh_shortens {A} (step : list byte -> option (A * list byte)) : Prop :=
+  forall s a r, step s = Some (a, r) -> (length r < length s)%nat.
+
+Lemma tlsh_many_fuel {A} (step : list byte -> option (A * list byte)) :
+  tlsh_shortens step ->
+  forall f1 s f2, (length s <= f1)%nat -> (length s <= f2)%nat -> cb_many f1 step s = cb_many f2 step s.
+Proof.
+  intros Hsh f1. induction f1 as [|f1 IH]; intros s f2 H1 H2.
+  - destruct s; [destruct f2; reflexivity|cbn in H1; lia].
+  - destruct s as [|b s]; [destruct f2; reflexivity|].
+    destruct f2 as [|f2]; [cbn in H2; lia|]. cbn [cb_many].
+    destruct (step (b :: s)) as [[a r]|] eqn:E; [|reflexivity].
+    apply Hsh in E. rewrite (IH r f2) by (cbn [length] in *; lia). reflexivity.
+Qed.
+
+Lemma tlsh_read_shortens n s v r : cb_read n s = Some (v, r) -> (length r + n = length s)%nat.
+Proof.
+  unfold cb_read, read_full. destruct (Nat.ltb_spec (length s) n) as [Hlt|Hge]; [discriminate|].
+  intro H; inversion H; subst. rewrite skipn_length. lia.
+Qed.
+
+Lemma tlsh_uint_shortens w s v r : cb_uint w s = Some (v, r) -> (length r + w = length s)%nat.
+Proof.
+  unfold cb_uint. destruct (cb_read w s) as [[x y]|] eqn:E; [|discriminate].
+  intro H; inversion H; subst. apply (tlsh_read_shortens _ _ _ _ E).
+Qed.
+
+Lemma tlsh_lp_shortens w s v r : cb_lp w s = Some (v, r) -> (length r + w <= length s)%nat.
+Proof.
+  unfold cb_lp. destruct (cb_read w s) as [[x y]|] eqn:E; [|discriminate].
+  intro H. apply tlsh_read_shortens in E. apply tlsh_read_shortens in H. lia.
+Qed.
+
+Lemma tlsh_u16_shortens : tlsh_shortens cb_u16.
+Proof. intros s a r H. apply tlsh_uint_shortens in H. lia. Qed.
+
+Lemma tlsh_nonempty_lp_shortens : tlsh_shortens (nonempty_lp 1).
+Proof.
+  intros s a r. unfold nonempty_lp. destruct (cb_lp 1 s) as [[v r']|] eqn:E; [|discriminate].
+  destruct (cb_empty v); [discriminate|]. intro H; inversion H; subst. apply tlsh_lp_shortens in E. lia.
+Qed.
+
+Lemma tlsh_key_share_shortens : tlsh_shortens key_share_step.
+Proof.
+  intros s a r. unfold key_share_step. destruct (cb_u16 s) as [[g r1]|] eqn:E1; [|discriminate].
+  destruct (cb_lp 2 r1) as [[k r2]|] eqn:E2; [|discriminate]. destruct (cb_empty k); [discriminate|].
+  intro H; inversion H; subst. apply tlsh_uint_shortens in E1. apply tlsh_lp_shortens in E2. lia.
+Qed.
+
+Lemma tlsh_psk_identity_shortens : tlsh_shortens psk_identity_step.
+Proof.
+  intros s a r. unfold psk_identity_step. destruct (cb_lp 2 s) as [[l r1]|] eqn:E1; [|discriminate].
+  destruct (cb_u32 r1) as [[g r2]|] eqn:E2; [|discriminate]. destruct (cb_empty l); [discriminate|].
+  intro H; inversion H; subst. apply tlsh_lp_shortens in E1. apply tlsh_uint_shortens in E2. lia.
+Qed.
+
+Lemma tlsh_sni_fuel : forall f1 nl f2 i,
+  (length nl <= f1)%nat -> (length nl <= f2)%nat -> sni_loop f1 nl i = sni_loop f2 nl i.
+Proof.
+  induction f1 as [|f1 IH]; intros nl f2 i H1 H2.
+  - destruct nl; [destruct f2; reflexivity|cbn in H1; lia].
+  - destruct nl as [|b nl]; [destruct f2; reflexivity|].
+    destruct f2 as [|f2]; [cbn in H2; lia|]. cbn [sni_loop].
+    destruct (cb_u8 (b :: nl)) as [[nt r1]|] eqn:E1; [|reflexivity].
+    destruct (cb_lp 2 r1) as [[name r2]|] eqn:E2; [|reflexivity].
+    apply tlsh_uint_shortens in E1. apply tlsh_lp_shortens in E2.
+    assert (Hr : (length r2 <= f1)%nat /\ (length r2 <= f2)%nat) by (cbn [length] in *; lia).
+    destruct Hr as [Hr1 Hr2].
+    destruct (cb_empty name); [reflexivity|].
+    destruct (negb (nt =? 0)%N); [apply IH; assumption|].
+    destruct (negb (cb_empty (i_server_name i))); [reflexivity|].
+    destruct (has_suffix_dot name); [reflexivity|]. apply IH; assumption.
+Qed.
+
+Lemma tlsh_exts_fuel : forall f1 exts f2 i,
+  (length exts <= f1)%nat -> (length exts <= f2)%nat -> parse_exts f1 exts i = parse_exts f2 exts i.
+Proof.
+  induction f1 as [|f1 IH]; intros exts f2 i H1 H2.
+  - destruct exts; [destruct f2; reflexivity|cbn in H1; lia].
+  - destruct exts as [|b exts]; [destruct f2; reflexivity|].
+    destruct f2 as [|f2]; [cbn in H2; lia|]. cbn [parse_exts].
+    destruct (cb_u16 (b :: exts)) as [[t r1]|] eqn:E1; [|reflexivity].
+    destruct (cb_lp 2 r1) as [[d r2]|] eqn:E2; [|reflexivity].
+    apply tlsh_uint_shortens in E1. apply tlsh_lp_shortens in E2.
+    destruct (parse_ext t d (cb_empty r2) _); [|reflexivity].
+    apply IH; cbn [length] in *; lia.
+Qed.
+
+(* ------------------------------------------------------------------ routing on a complete record *)
+Lemma tlsh_info_protos h : wf_hello h -> i_protos (info_of_hello h) = alpn h.
+Proof.
+  intro Hwf. rewrite <- (tlsh_parse_encode_full (repeat x00 4) h eq_refl Hwf).
+  apply (tlsh_parse_encode (repeat x00 4) h eq_refl Hwf).
+Qed.
+
+Lemma tlsh_alpn_routing cfg v h rest :
+  wf_hello h -> vfits 2 (hs_header (encode_hello h) ++ encode_hello h) ->
+  (r_verdict (tls_match (fun i => alpn_match cfg (i_protos i)) (encode_record v h ++ rest)) = Yes
+   <-> exists a, In a cfg /\ In a (alpn h)) /\
+  (r_verdict (tls_match (fun i => alpn_match cfg (i_protos i)) (encode_record v h ++ rest)) = No
+   <-> ~ exists a, In a cfg /\ In a (alpn h)).
+Proof.
+  intros Hwf Hf. rewrite tlsh_match_record by assumption. cbn [r_verdict].
+  rewrite tlsh_info_protos by exact Hwf. rewrite <- tlsh_alpn_match_spec.
+  destruct (alpn_match cfg (alpn h)); split; split; intro H; try reflexivity; try discriminate; try congruence.
+Qed.
